@@ -1114,6 +1114,10 @@ def remove_redundant_transpose_reduce_ir(graph: ir.Graph) -> None:
             if reducer_consumers[0] is not node:
                 # Should be covered by consumers scan logic, but double check
                 continue
+            if reducer_out_val is not None and reducer_out_val.is_graph_output():
+                # The reducer's own result is a model output: it must keep its
+                # (transposed) layout, so the pair cannot be folded around it.
+                continue
 
             # 1. Update Reducer inputs
             # Input 0 becomes T1 input 0
